@@ -252,16 +252,16 @@ fn vis_to_lib(p: &VisM) -> M2VisibilityInfo {
 fn b3(v: &Vec3d) -> [u32; 3] {
     [v.x.to_bits(), v.y.to_bits(), v.z.to_bits()]
 }
-fn place_bits(p: &ModelPlacement) -> (u32, u32, Vec<u32>, [u16; 4]) {
+pub fn place_bits(p: &ModelPlacement) -> (u32, u32, Vec<u32>, [u16; 4]) {
     let f: Vec<u32> = [b3(&p.position), b3(&p.rotation), b3(&p.bounds.min), b3(&p.bounds.max)].concat();
     (p.id, p.wmo_id, f, [p.flags, p.doodad_set, p.name_set, p.padding])
 }
-fn m2_bits(p: &M2Placement) -> (u32, u32, Vec<u32>, u32) {
+pub fn m2_bits(p: &M2Placement) -> (u32, u32, Vec<u32>, u32) {
     let mut f: Vec<u32> = [b3(&p.position), b3(&p.rotation)].concat();
     f.push(p.scale.to_bits());
     (p.id, p.m2_id, f, p.flags)
 }
-fn vis_bits(p: &M2VisibilityInfo) -> Vec<u32> {
+pub fn vis_bits(p: &M2VisibilityInfo) -> Vec<u32> {
     let mut f: Vec<u32> = [b3(&p.bounds.min), b3(&p.bounds.max)].concat();
     f.push(p.radius.to_bits());
     f
@@ -459,7 +459,7 @@ pub fn judge_bytes(v: u8, tiles: &Tiles, holes_expected: bool, model: Option<&Wd
     Ok(words)
 }
 
-fn cmp_tiles(f: &WdlFile, tiles: &Tiles, holes: HolesRule, sig: &str, what: &str) -> CaseResult {
+pub fn cmp_tiles(f: &WdlFile, tiles: &Tiles, holes: HolesRule, sig: &str, what: &str) -> CaseResult {
     let mut keys: Vec<(u32, u32)> = f.heightmap_tiles.keys().copied().collect();
     keys.sort();
     let want: Vec<(u32, u32)> = tiles.keys().copied().collect();
@@ -518,7 +518,7 @@ pub enum HolesRule {
     Ignore,
 }
 
-fn cmp_content(f: &WdlFile, m: &WdlModel, tiles: &Tiles, sig: &str, what: &str) -> CaseResult {
+pub fn cmp_content(f: &WdlFile, m: &WdlModel, tiles: &Tiles, sig: &str, what: &str) -> CaseResult {
     if f.version_number != 18 {
         vfail!(format!("{sig}:version-number"), "{what}: version_number {}", f.version_number);
     }
